@@ -360,7 +360,7 @@ func UnparseCmd(c Cmd, ns string, p *Program, st Style) string {
 		case "all":
 			s += ` data="all"`
 		case "expr":
-			s += ` data="` + ex(c["de"]) + `"`
+			s += ` data="` + attrQuote(ex(c["de"])) + `"`
 		}
 		params := toCmds(c["params"])
 		if len(params) == 0 {
@@ -371,8 +371,8 @@ func UnparseCmd(c Cmd, ns string, p *Program, st Style) string {
 			switch pa["k"].(string) {
 			case "pv":
 				v := ex(pa["e"])
-				if c["paramattrs"] == true && !strings.ContainsAny(v, "\"\\") {
-					s += "{param key=\"" + pa["key"].(string) + "\" value=\"" + v + "\" /}"
+				if c["paramattrs"] == true {
+					s += "{param key=\"" + pa["key"].(string) + "\" value=\"" + attrQuote(v) + "\" /}"
 				} else {
 					s += "{param " + pa["key"].(string) + ": " + v + " /}"
 				}
@@ -392,7 +392,7 @@ func UnparseCmd(c Cmd, ns string, p *Program, st Style) string {
 		return "{debugger}"
 	case "msg":
 		desc, _ := c["desc"].(string)
-		return `{msg desc="` + desc + `"}` + sub(c["body"]) + "{/msg}"
+		return `{msg desc="` + attrQuote(desc) + `"}` + sub(c["body"]) + "{/msg}"
 	case "plural":
 		s := "{plural " + ex(c["e"]) + "}"
 		for _, cs := range toCmds(c["cases"]) {
@@ -401,4 +401,10 @@ func UnparseCmd(c Cmd, ns string, p *Program, st Style) string {
 		return s + "{default}" + sub(c["def"]) + "{/plural}"
 	}
 	panic("UnparseCmd: unknown command " + fmt.Sprint(c["k"]))
+}
+
+// attrQuote escapes an expression (or text) for use inside a double-quoted
+// command attribute: backslash and double quote are written with a backslash.
+func attrQuote(v string) string {
+	return strings.NewReplacer(`\`, `\\`, `"`, `\"`).Replace(v)
 }
